@@ -9371,9 +9371,19 @@ class SVG(Group):
                         attributes[SVG_ATTR_TRANSFORM] = attributes[SVG_ATTR_TRANSFORM]
                     try:
                         probe = Matrix(attributes[SVG_ATTR_TRANSFORM])
+                        symbolic = isinstance(probe.e, Length) or isinstance(
+                            probe.f, Length
+                        )
                         probe.render(ppi=ppi, width=width, height=height)
                         if isinstance(probe.e, Length) or isinstance(probe.f, Length):
                             raise ValueError("Transform lengths cannot be resolved.")
+                        if symbolic:
+                            # A translation in units or percentages is resolved where it is declared: the text
+                            # that descendants (a use with x, y) append to cannot be multiplied with a Length.
+                            attributes[SVG_ATTR_TRANSFORM] = (
+                                "matrix(%s, %s, %s, %s, %s, %s)"
+                                % (probe.a, probe.b, probe.c, probe.d, probe.e, probe.f)
+                            )
                     except (ValueError, IndexError, TypeError):
                         # A malformed transform is an error of this element only: it is ignored,
                         # the transforms of the ancestors stay in force.
